@@ -333,6 +333,8 @@ def shape_arg(rng, s, key):
                 return {"a": d, "sh": [len(s)], "x": np.array(s, dtype=np.dtype(d)).tobytes().hex()}
         return a
     if c == "ndarray32":
+        if any(not (-2 ** 31 <= v < 2 ** 31) for v in s):
+            return a
         return {"a": "<i4", "sh": [len(s)], "x": np.array(s, dtype="<i4").tobytes().hex()}
     if c == "list":
         return {"l": [pyint(v) for v in s]}
@@ -547,6 +549,9 @@ def rename_nodes(rng, g, truth, erased):
 
 
 NAMES += ["a\x00b", "\x00x", "nul\x00"]
+# names that look like escape sequences of the characters a link name cannot hold (a writer that escapes '/' must
+# escape its own escape character too)
+NAMES += ["enc%2Ffc1", "%2F", "a%25b", "a%2fb", "x%00y", "a\\b", "a&#47;b", "a%b"]
 
 
 def rand_name(rng, slash=False):
@@ -619,3 +624,27 @@ def random_graph(rng, depth=0, maxdepth=3, max_nodes=8, slash=False, meta_p=0.3,
     if share:
         g["share"] = share
     return g
+
+
+def dtype_twins(g):
+    """two copies of a recipe that are equal as numbers everywhere but differ in the dtype of every float64 array
+    (float64 holding float32-representable values / float32): what a re-export at another precision looks like"""
+    import copy
+
+    def walk(x, to32):
+        if isinstance(x, dict):
+            if set(x) >= {"a", "sh", "x"} and x["a"] == "<f8":
+                a = np.frombuffer(bytes.fromhex(x["x"]), dtype="<f8")
+                with np.errstate(all="ignore"):
+                    a32 = np.nan_to_num(a, nan=0.5, posinf=2.0, neginf=-2.0).astype("<f4")
+                    a32 = np.nan_to_num(a32, nan=0.5, posinf=2.0, neginf=-2.0)
+                out = dict(x)
+                out["a"] = "<f4" if to32 else "<f8"
+                out["x"] = (a32 if to32 else a32.astype("<f8")).tobytes().hex()
+                out.pop("layout", None)
+                return out
+            return {k: walk(v, to32) for k, v in x.items()}
+        if isinstance(x, list):
+            return [walk(v, to32) for v in x]
+        return x
+    return walk(copy.deepcopy(g), False), walk(copy.deepcopy(g), True)
